@@ -68,6 +68,7 @@ func (h *Handler6) spoofLoop(dstAddr packet.Addr) {
 	}
 	for {
 		h.Lock()
+		wakeup := h.closeChan // replaced by the packet loop on every router advertisement
 
 		if h.huntList.Index(dstAddr.MAC) == -1 || h.closed {
 			h.Unlock()
@@ -127,7 +128,7 @@ func (h *Handler6) spoofLoop(dstAddr packet.Addr) {
 		}
 
 		select {
-		case <-h.closeChan:
+		case <-wakeup:
 			// icmp6 spoof goroutines wait on this channel to receive
 			// notifications of new Router Advertisements send by the lan router.
 			//
